@@ -550,7 +550,7 @@ def owners(clause: str, event: Optional[Dict[str, Any]] = None) -> set:
         own.add('C06')
     if ev == 'agree' or mode == 'obs':
         own.add('C11')
-    if ev == 'trick':
+    if ev in ('trick', 'peek'):
         own.add('C04')
     if fails & {'leader', 'active', 'tricknum', 'taken', 'hist', 'done', 'contract'}:
         own.add('C04')
@@ -690,6 +690,41 @@ def run_into(chk: Check, pid: str, tier: str) -> None:
         chk.extra['playable_table'] = {'pack': pack, 'hands': len(hands),
                                        'full_size_hands': len(big)}
 
+    if pid == 'C04':
+        # a second thread (a scoreboard) looks at the object while the cards of
+        # the last trick are being played: play over => the counts total 13
+        from . import race
+
+        def make_calls_peek():
+            Player = _imports()[6]
+            rr = rng('racepeek', sd)
+            dl = random_deal(rr)
+            ob = Obj(0, 'hands', NOSEAT, dl, sd % 5, sd % 4)
+            hands = [set(h) for h in dl]
+            for _ in range(48):
+                a = ob.proj()['active']
+                c = sorted(hands[a])[0]
+                ob.obj.play_card_by_player(card(c), Player(a + 1))
+                hands[a].discard(c)
+
+            def call_a():
+                for _ in range(4):
+                    a = ob.proj()['active']
+                    c = sorted(hands[a])[0]
+                    ob.obj.play_card_by_player(card(c), Player(a + 1))
+                    hands[a].discard(c)
+                return []
+
+            def call_b():
+                Pair = _imports()[5]
+                o = ob.obj
+                done = bool(o.has_done())
+                taken = [o.taken_tricks[Pair.NS], o.taken_tricks[Pair.EW]]
+                return [{'tid': 'peek', 'ev': 'peek', 'done': done, 'taken': taken}]
+            return call_a, call_b
+        events.extend(race.run_race(chk, 'a look at the last trick from another thread',
+                                    make_calls_peek, 200))
+
     if pid == 'C06':
         # one example player object serving two tables at the same time (its
         # interface is stateless): every line-level preemption of a decision
@@ -724,6 +759,40 @@ def run_into(chk: Check, pid: str, tier: str) -> None:
             return mk('ra', da, NT, 0, 2), mk('rb', db, 1, 0, 9)
         events.extend(race.run_race(chk, 'RandomPlay shared by two tables', make_calls, 150))
 
+        # a second thread waits for its turn while the lead is being played: once
+        # it sees that the turn has passed to it, what it is offered follows the
+        # suit that was led
+        def make_calls_turn():
+            (Bid, Card, Contract, Hands, Obs, Pair, Player, PP, PPH, Suit, Vul) = _imports()
+            rr = rng('raceturn', sd)
+            dl = random_deal(rr)
+            ob = Obj(0, 'hands', NOSEAT, dl, NT, sd % 4)
+            hands = [set(h) for h in dl]
+            for _ in range(4 * (sd % 3)):             # some complete tricks first
+                a = ob.proj()['active']
+                mp = ob.obj.current_available_cards_in_hand(Player(a + 1))
+                c = sorted(cnum(x) for x in mp)[0]
+                ob.obj.play_card_by_player(card(c), Player(a + 1))
+                hands[a].discard(c)
+            leader = ob.proj()['active']
+            lead = sorted(hands[leader])[len(hands[leader]) // 2]
+
+            def call_a():
+                ob.obj.play_card_by_player(card(lead), Player(leader + 1))
+                return []
+
+            def call_b():
+                a = ob.obj.active_player.value - 1
+                if a == leader:
+                    return []
+                out = ob.obj.current_available_cards_in_hand(Player(a + 1))
+                return [{'tid': 'turn', 'ev': 'avail', 'kind': 'static', 'o': 0,
+                         'hand': sorted(hands[a]), 'led': lead, 'res': 'ok',
+                         'out': cards_sorted(out)}]
+            return call_a, call_b
+        events.extend(race.run_race(chk, 'the next seat looks while the lead is being played',
+                                    make_calls_turn, 120))
+
     # coverage book-keeping
     seen = set()
     plays_so_far: Dict[Any, list] = {}
@@ -731,6 +800,8 @@ def run_into(chk: Check, pid: str, tier: str) -> None:
         chk.evaluations += 1
         if e['ev'] == 'new':
             plays_so_far[(e['tid'], e['o'])] = [e['trump'], e['decl'], []]
+            continue
+        if e['ev'] == 'peek':
             continue
         if e['ev'] in ('trick',):
             seen.add(hash(('t', e['trump'], tuple(e['cards']))))
